@@ -279,6 +279,10 @@ pub struct Observation {
     /// (rb = log id, data) for LogData; (rb, ra as 8 BE bytes) for Log
     pub logs: Vec<(u64, Vec<u8>)>,
     pub gas_used: u64,
+    #[serde(default)]
+    /// positions in `logs` that come from raw `log` instructions (asm blocks): their register
+    /// operands may be addresses, which legitimately depend on the memory layout
+    pub raw_log_positions: Vec<usize>,
 }
 
 impl Observation {
@@ -306,7 +310,7 @@ impl Observation {
 pub fn run_script(bytecode: &[u8], script_data: &[u8]) -> Observation {
     match run_script_inner(bytecode, script_data) {
         Ok(o) => o,
-        Err(e) => Observation { outcome: Outcome::VmError(e.to_string()), logs: vec![], gas_used: 0 },
+        Err(e) => Observation { outcome: Outcome::VmError(e.to_string()), logs: vec![], gas_used: 0, raw_log_positions: vec![] },
     }
 }
 
@@ -338,6 +342,7 @@ pub fn observe(receipts: &[fuel_tx::Receipt]) -> Observation {
     use fuel_tx::Receipt;
     let mut outcome = None;
     let mut logs = vec![];
+    let mut raw_log_positions = vec![];
     let mut gas_used = 0;
     for r in receipts {
         match r {
@@ -357,13 +362,16 @@ pub fn observe(receipts: &[fuel_tx::Receipt]) -> Observation {
             Receipt::Panic { reason, .. } => {
                 outcome = Some(Outcome::Panic(format!("{:?}", reason.reason())));
             }
-            Receipt::Log { ra, rb, .. } => logs.push((*rb, ra.to_be_bytes().to_vec())),
+            Receipt::Log { ra, rb, .. } => {
+                raw_log_positions.push(logs.len());
+                logs.push((*rb, ra.to_be_bytes().to_vec()))
+            }
             Receipt::LogData { rb, data, .. } => logs.push((*rb, data.as_ref().map(|d| d.to_vec()).unwrap_or_default())),
             Receipt::ScriptResult { gas_used: g, .. } => gas_used = *g,
             _ => {}
         }
     }
-    Observation { outcome: outcome.unwrap_or(Outcome::VmError("no terminal receipt".into())), logs, gas_used }
+    Observation { outcome: outcome.unwrap_or(Outcome::VmError("no terminal receipt".into())), logs, gas_used, raw_log_positions }
 }
 
 // ------------------------------------------------------------------------------------------
